@@ -33,7 +33,18 @@ def newline_join(case):
     return '\n' in case.get('text', '') and case.get('class') in ('adjacent-operands', 'newline')
 
 
-SIGNATURES = {'newline_join': newline_join}
+def operator_with_blanks(case):
+    """a two-character comparison operator written with blanks inside ('> =', '< >', '< =') is accepted; with the blanks
+    removed the text has no operator without a left operand"""
+    import re
+    t = case.get('text', '')
+    if not case.get('class', '').endswith('/missing-left-operand'):
+        return False
+    t2 = re.sub(r'<\s+=', '<=', re.sub(r'>\s+=', '>=', re.sub(r'<\s+>', '<>', t)))
+    return t2 != t and not lacks_left_operand(t2)
+
+
+SIGNATURES = {'newline_join': newline_join, 'operator_with_blanks': operator_with_blanks}
 
 
 def new_run():
@@ -102,6 +113,24 @@ def lacks_left_operand(text):
     return False
 
 
+def operand_after_percent(text):
+    """a second necessary condition: after a percent sign comes an operator, a closing parenthesis / brace, a separator or
+    the end - never the start of an operand (two operands without an operator)"""
+    import re
+    lacks_left_operand('=1')                      # compile the shared expressions
+    t = text.lstrip()
+    if t.startswith('{='):
+        t = t[2:]
+    elif t.startswith('='):
+        t = t[1:]
+    else:
+        return False
+    if '"' in _STRIP.sub('', t) or "'" in _STRIP.sub('', t):
+        return False
+    t = _STRIP.sub('"s"', t)
+    return re.search(r'%\s*[A-Za-z0-9"({#.$_\\]', t) is not None
+
+
 def check(run):
     setup()
     rnd = run.rng
@@ -124,6 +153,8 @@ def check(run):
             run.violation('malformed input (%s) is accepted and read as %s' % (cls, r[1]), case)
         elif r[0] == 'ok' and lacks_left_operand(text):
             run.violation('malformed input (an operator without its left operand) is accepted and read as %s' % r[1], dict(case, **{'class': cls + '/missing-left-operand'}))
+        elif r[0] == 'ok' and operand_after_percent(text):
+            run.violation('malformed input (an operand directly after a percent sign) is accepted and read as %s' % r[1], dict(case, **{'class': cls + '/operand-after-percent'}))
         try:
             signal.signal(signal.SIGALRM, _alarm); signal.alarm(10)
             Parser().is_formula(text)
@@ -201,7 +232,8 @@ def check(run):
             if (a[-1].isalnum() or a[-1] in '_.') and b[0] == '(':
                 a = '"x"'            # name(1) is a function call, not two operands
             text = rnd.choice([a + b, '(' + a + ')' + b, a + '(' + b + ')' if not a[-1].isalnum() else '"q"(' + b + ')',
-                               'SUM(' + a + b + ')', '1 2', '1 "a"', '"a" "b"', '(1)(2)', '(1)2', '"a"1', '1"a"', '#N/A#N/A', '1\n2', '1\n+\n"a"\n"b"'])
+                               'SUM(' + a + b + ')', '1 2', '1 "a"', '"a" "b"', '(1)(2)', '(1)2', '"a"1', '1"a"', '#N/A#N/A', '1\n2', '1\n+\n"a"\n"b"',
+                               '1%' + b + '+', a + '%' + b, '1%2+', '(1)%' + b + '*'])
         elif cls == 'ragged-array':
             text = rnd.choice(['{1,2;3}', '{1;2,3}', '{1,2,3;4,5}', '{1,2;3,4;5}', 'SUM({1;2,3})', '{1,2;}', '{;1}'])
         elif cls == 'misplaced-close':
@@ -210,6 +242,8 @@ def check(run):
             ch = rnd.choice(['~', '`', '|', '“', '€', '§', '¤', '\x00', '\x7f'])   # `\\` and `?` are legal in names
             text = rnd.choice([good + ch, ch + good, a + ch + b, a + '+' + ch])
         r = one('=' + text, cls, must_reject=True)
+    for text in ['#REF!+1', '#N/A x', '#DIV/0!)', '#NAME?1', '  #NUM! 2', '#VALUE!#VALUE!', '#N/A,#N/A']:
+        r = one(text, 'error-literal-with-trailing-text', must_reject=True)
     run.sample({'class': 'adjacent-operands', 'text': '=(1)2', 'impl': list(parse('=(1)2'))})
     run.sample({'class': 'misplaced-close', 'text': '=1)+(2', 'impl': list(parse('=1)+(2'))})
     # ---- 5. numeric literals -------------------------------------------------------------------------------------------------
@@ -231,6 +265,8 @@ def check(run):
     run.sample({'class': 'numeric-literal', 'text': '=007', 'impl': repr(Parser().ast('=007')[1].compile()())})
 
     # ---- known-finding witness ------------------------------------------------------------------------------------------------
+    r = one('=1> =2', 'soup')
+    run.replay_witness('operator-with-blanks', parse('=1> =2') == ('ok', '(1 >= 2)'), {'witness': '=1> =2', 'impl': list(parse('=1> =2'))})
     r = parse('=1\n2')
     run.replay_witness('newline-join', r == ('ok', '12'), {'witness': '=1\\n2', 'impl': list(r)})
 
